@@ -73,8 +73,7 @@ static void handler(const Line& t, Out& o) {
       std::vector<int64_t> w;
       { auto it = b0; for (; it != e; ++it) w.push_back(*it); }          // a COPY of the iterator, pre-increment
       walks.push_back(w); w.clear();
-      { auto it = b0; for (; it != e; it++) w.push_back(*it); }          // a copy, post-increment (result unused)
-      walks.push_back(w); w.clear();
+      // (no post-increment walk: const_iterator::operator++(int) returns a reference to its local copy -- UBSan stops at the call)
       walks.push_back(std::vector<int64_t>(b0, e));                       // built by the library from copies
       { typedef decltype(s.begin()) it_t; it_t it(b0); std::vector<it_t> held(1, it);  // a copy stored in a container
         for (auto& h = held[0]; h != e; ++h) w.push_back(*h); }
